@@ -192,6 +192,117 @@ def u_get(c):
             c.oblige("GET/body-is-bytes-a-through-b", And(cs == a, ce == b))
 
 
+class _Chunk:
+    """what file.read() returned: k bytes of the file starting at `frm` (content = the file's own bytes there)."""
+    def __init__(self, c, frm, k):
+        self.c, self.frm, self.k = c, frm, k
+
+    def __pyvc_len__(self):
+        return self.k
+
+    def __len__(self):
+        return self.k
+
+    def __bool__(self):
+        return bool(self.k > 0)
+
+
+class _File:
+    """regular file opened 'rb': size, position; read(n) returns 0 <= k <= min(n, size - pos) bytes, k == 0 only at
+    EOF or for n == 0 (short reads allowed: more general than a disk file)."""
+    def __init__(self, c, size):
+        self.c, self.size, self.pos, self.closed, self.reads = c, size, 0, False, 0
+
+    def __enter__(self):
+        return self
+
+    def __exit__(self, *a):
+        self.closed = True
+        return False
+
+    def seek(self, p):
+        self.pos = p
+        return p
+
+    def read(self, n=-1):
+        c = self.c
+        self.reads += 1
+        avail = self.size - self.pos
+        if c.symbolic:
+            k = c.int("read_k")
+            lim = SInt(z3.If(_z(n) < _z(avail), _z(n), _z(avail)))
+            c.assume(And(k >= 0, k <= lim, Implies(k == 0, Or(lim == 0))))
+        else:
+            lim = min(n, avail)
+            k = lim if (lim <= 1 or c.rng is None or c.rng.random() < 0.7) else c.rng.randint(1, lim)
+        ch = _Chunk(c, self.pos, k)
+        self.pos = self.pos + k
+        return ch
+
+
+def _z(x):
+    return x.t if isinstance(x, SInt) else z3.IntVal(x)
+
+
+@unit("C27", "StaticFileHandler.get_content", [("tornado.web", "StaticFileHandler.get_content")])
+def u_get_content(c):
+    """the generator that reads the requested slice: it yields exactly bytes [start, end) of the file, in order,
+    never a byte past `end` (the Content-Length announced by get() is end - start)."""
+    from pyvc.rewrite import LoopSpec
+    import tornado.web as W
+    size = c.nat("size")
+    sk = c.choose("start", ["None", "int"])
+    ek = c.choose("end", ["None", "int"])
+    start = None if sk == "None" else c.nat("start")
+    end = None if ek == "None" else c.nat("end")
+    if not c.symbolic and c.model is None:
+        size = c.rng.choice([0, 1, 5, 65535, 65536, 65537, 100000, 200000, 300000])
+        start = None if sk == "None" else c.rng.randint(0, size)
+        end = None if ek == "None" else c.rng.randint(start or 0, size)
+        c.values.update({"size": size, "start": start, "end": end})
+    s0 = 0 if start is None else start
+    c.assume(And(s0 <= size, True if end is None else And(s0 <= end, end <= size)))
+    G = {"file": None, "yielded": 0}
+
+    def opener(path, mode="r", *a, **k):
+        G["file"] = _File(c, size)
+        return G["file"]
+
+    def inv(c_, L, old):
+        f, y, rem = G["file"], G["yielded"], L["remaining"]
+        base = And(y >= 0, f.pos == s0 + y, f.pos <= size)
+        if end is None:
+            return And(base, rem is None)
+        return And(base, rem is not None, rem == end - s0 - y if rem is not None else False, (rem >= 0) if rem is not None else False)
+
+    def fields(c_, L):
+        G["yielded"] = c_.nat("h_yielded")
+        G["file"].pos = c_.nat("h_pos")
+
+    loops = {0: LoopSpec(inv, fields=fields)} if c.symbolic else {}
+    f = c.fn("tornado.web", "StaticFileHandler.get_content", loops=loops)
+    chunks = []
+    with c.patched((f.__globals__, "open", opener)):
+        def consume():
+            for ch in f(W.StaticFileHandler, "/srv/static/file", start, end):
+                before = G["yielded"]
+                c.oblige("post/chunks-are-non-empty-file-bytes-in-order", And(ch.k > 0, ch.frm == s0 + before))
+                G["yielded"] = before + ch.k
+                if end is not None:
+                    c.oblige("post/never-a-byte-past-the-range-end", G["yielded"] <= end - s0)
+                chunks.append(ch)
+        out = c.call(consume)
+    c.only_raises(out, ())
+    if out.raised:
+        return
+    c.cover("get_content/finished")
+    want = (end if end is not None else size) - s0
+    c.oblige("post/yields-exactly-the-requested-slice", G["yielded"] == want)
+    c.oblige("post/file-closed", G["file"] is not None and G["file"].closed)
+
+
+
+
 def standin(tier, seed):
     import itertools
     import os
